@@ -98,6 +98,9 @@ func main() {
 		sortBig([]fqlast.SortKey{{E: bigField("b"), Desc: true, Dir: "DESC"}}),
 		sortBig([]fqlast.SortKey{{E: bigField("a"), Dir: "ASC"}, {E: bigField("b"), Desc: true, Dir: "DESC"}}),
 		sortBig([]fqlast.SortKey{{E: fqlast.Int(0)}}),
+		// integer literals are decimal whatever their spelling (leading zeros)
+		{Ret: fqlast.Arr(&fqlast.E{K: "int", Int: 10, Str: "010"}, &fqlast.E{K: "int", Int: 7, Str: "007"},
+			fqlast.Math("+", &fqlast.E{K: "int", Int: 10, Str: "0010"}, fqlast.Int(1)), &fqlast.E{K: "int", Int: 0, Str: "00"})},
 	}
 	n += len(corpus)
 	for i := 0; i < n; i++ {
